@@ -18,7 +18,7 @@ for p in props:
         "evidence_file": "/verif/evidence/%s.json" % pid,
         "replay_cmd_template": "./run.sh --replay {path}",
         "engine": "coq-proof+correspondence",
-        "level_claimed": {"category": cfg.get("level", "proof"), "text": cfg.get("level_text", ""), "design_ref": cfg.get("design_ref", "DESIGN.md section 6 (%s)" % pid)},
+        "level_claimed": {"category": cfg.get("level", "proof"), "text": cfg.get("level_text", ""), "design_ref": cfg.get("design_ref", "DESIGN.md section 0.2b (status of %s as built), section 6 (plan), section 8 (trusted base)" % pid)},
         "level_note": cfg.get("level_note", ""),
         "technique": cfg.get("technique", ""),
     })
